@@ -1,1 +1,396 @@
-/-! C08 — property theorems (stub: nothing proved yet). -/
+import B6.Model.Posting
+import B6.Lemmas.Posting
+import B6.Lemmas.PostingTable
+import B6.Lemmas.PostingAdvance
+import B6.Lemmas.PostingAdvance2
+import B6.Spec.Cursor
+/-!
+# C08 — Posting lists decode to exactly the IDs encoded
+
+Theorems about `B6.Model.Posting` (the model of `PostingListEncoder.Append` / `PostingList.Fill` /
+`Iterator.Next` / `Iterator.Advance` in ingest/compact/encoding.go), for **every** id list that is strictly
+increasing in `(TypeAndNamespace, value)` — any length, any number of namespaces, any 64-bit values, hence any
+varint widths, block splits and paddings.
+
+An id is `(TypeAndNamespace, value)`; `ValidIds` = values `< 2^64` and `TypeAndNamespace ≠ 0`
+(0 is point/`""`, the invalid namespace, which the encoder takes for "no namespace seen yet").
+-/
+namespace B6.Props.C08
+open B6.Model.Posting B6.Model.Varint
+open B6.Spec.Cursor (Cursor Call runSpec)
+
+/-! ## Next: the encoded list iterates to exactly the ids encoded -/
+
+/-- **posting_roundtrip**: calling `Next` until it returns false on the posting list built by `Fill` yields
+exactly the ids given — for every valid strictly increasing id list. -/
+theorem posting_roundtrip (token : Bytes) (ids : List Id) (hv : ValidIds ids) (hs : SortedIds ids) :
+    drain (fill token ids) = some ids ∧ (fill token ids).header.features = ids.length :=
+  ⟨drain_fill token ids hv hs, rfl⟩
+
+/-- the same for the `(Header, bytes)` pair of DESIGN §5 -/
+theorem posting_roundtrip_encode (ids : List Id) (hv : ValidIds ids) (hs : SortedIds ids) :
+    drain ⟨(encode ids).1, (encode ids).2⟩ = some ids :=
+  drain_fill [] ids hv hs
+
+/-- the encoder does not even need the `TypeAndNamespace`s to increase: it is enough that values do not
+decrease inside a run of equal `TypeAndNamespace` (`Chain`) — this is the exact domain of `Fill`/`Next`. -/
+theorem posting_roundtrip_chain (token : Bytes) (ids : List Id) (h : Chain 0 0 ids) :
+    drain (fill token ids) = some ids := by
+  have hl : Lay (fill token ids).ids (fill token ids).header.namespaces 0 0 0 ids := by
+    have := encodeFrom_lay ids Enc.init [] [] encInv_init h
+    simpa [fill, Enc.init] using this
+  have hlen := lay_length ids 0 0 0 hl
+  unfold drain It.start
+  exact drainFuel_lay (fill_nss_sorted token ids) ids 0 0 0 _ hl (by omega)
+
+def exIds : List Id := [(1, 1), (3, 5), (3, 9), (8193, 0), (8193, 18446744073709551615)]
+
+example : ValidIds exIds ∧ SortedIds exIds := by
+  unfold ValidIds SortedIds exIds idLt; decide
+example : Chain 0 0 [(3, 5), (1, 1), (1, 1), (3, 2)] := by
+  simp [Chain]
+
+/-! ## block invariant -/
+
+/-- **block_inv** (1): every 64-byte block of the encoder output starts on a varint boundary with the
+*absolute* value of an id of the list, and `Next`-ing from that block start — with whatever stale value and
+any namespace index not beyond the block's — yields exactly the rest of the list from that id on.
+(This is what `Advance` relies on when it drops the cursor on a block start after its binary search.) -/
+theorem block_inv (token : Bytes) (ids : List Id) (hv : ValidIds ids) (hs : SortedIds ids) (b : Nat)
+    (hb : 64 * b < (fill token ids).ids.length) :
+    ∃ a id c, ids = a ++ id :: c ∧
+      putUvarint id.2 <+: (fill token ids).ids.drop (64 * b) ∧
+      ∀ stale fuel, c.length + 1 < fuel → drainFuel (fill token ids) fuel ⟨0, 64 * b, stale⟩ = some (id :: c) := by
+  obtain ⟨a, id, c, k', h1, hat⟩ := fill_blocks token ids hv hs b hb
+  refine ⟨a, id, c, h1, hat.2.2.1, ?_⟩
+  intro stale fuel hf
+  have hsorted := fill_nss_sorted token ids
+  have hn := next_atBlock hsorted hat 0 stale (Nat.zero_le _)
+  obtain ⟨_, _, _, ⟨idx, hk', _⟩, _, hrest⟩ := hat
+  cases fuel with
+  | zero => omega
+  | succ fuel =>
+    unfold drainFuel
+    rw [hn]
+    simp only [cur, hk']
+    rw [drainFuel_lay hsorted c _ _ _ fuel hrest (by omega)]
+
+/-- **block_inv** (2): the layout seen by the cursor after any prefix `done` of the list: the next id is either
+a delta varint inside the current block, or the cursor stands at the end of the block's data, the rest of the
+block is exactly padding bytes `0x80` (and the byte before is not `0x80`), and the next block starts with the
+id's absolute varint. -/
+theorem padding_inv (token : Bytes) (done : List Id) (id : Id) (rest : List Id)
+    (hv : ValidIds (done ++ id :: rest)) (hs : SortedIds (done ++ id :: rest)) :
+    let full := (fill token (done ++ id :: rest)).ids
+    ∃ p prev,
+      (p % 64 ≠ 0 ∧ prev ≤ id.2 ∧ putUvarint (id.2 - prev) <+: full.drop p ∧
+        p % 64 + (putUvarint (id.2 - prev)).length ≤ 64)
+      ∨
+      ((∀ i, p ≤ i → i < p + padLen p → full[i]? = some 128) ∧
+        (p % 64 ≠ 0 → ∃ b, full[p - 1]? = some b ∧ b ≠ 128) ∧
+        (p + padLen p) % 64 = 0 ∧ putUvarint id.2 <+: full.drop (p + padLen p)) := by
+  intro full
+  have hl := fill_lay token (done ++ id :: rest) hv hs
+  -- walk the layout over `done`
+  have key : ∀ (a : List Id) (p prev k : Nat),
+      Lay full (fill token (done ++ id :: rest)).header.namespaces p prev k (a ++ id :: rest) →
+      ∃ p' prev' k', Lay full (fill token (done ++ id :: rest)).header.namespaces p' prev' k' (id :: rest) := by
+    intro a
+    induction a with
+    | nil => intro p prev k h; exact ⟨p, prev, k, h⟩
+    | cons x a ih =>
+      intro p prev k h
+      rw [List.cons_append] at h
+      unfold Lay at h
+      obtain ⟨_, h⟩ := h
+      rcases h with ⟨_, _, _, _, _, _, hrest⟩ | ⟨k', _, _, _, _, _, _, hrest⟩
+      · exact ih _ _ _ hrest
+      · exact ih _ _ _ hrest
+  obtain ⟨p, prev, k, h⟩ := key done 0 0 0 hl
+  unfold Lay at h
+  obtain ⟨_, h⟩ := h
+  refine ⟨p, prev, ?_⟩
+  rcases h with ⟨h1, h2, h3, h4, _⟩ | ⟨k', _, h1, h2, h3, _⟩
+  · exact Or.inl ⟨h1, h2, h3, h4⟩
+  · exact Or.inr ⟨h1, h2, padLen_mod p, h3⟩
+
+/-! ## Next / Advance refine the spec cursor (`B6.Spec.Cursor`) over the id list
+
+The spec cursor runs over the keys `keyNat id = TypeAndNamespace * 2^64 + value` of the list.  `Canon pl ids it done rest`
+(Lemmas/PostingAdvance) says that the iterator state `it` is the one reached after reading exactly `done`.  Targets
+are all ids `T` with `TnOK tbl T.1`: three type bits and a namespace index inside the table — the namespace need
+not occur in the list. -/
+
+/-- the spec cursor that has consumed `done` and has `rest` ahead -/
+def cursorOf (done rest : List Id) : Cursor := ⟨done.map keyNat, rest.map keyNat⟩
+
+theorem keyNat_lt {a b : Id} (ha : a.2 < 2 ^ 64) (hb : b.2 < 2 ^ 64) : keyNat a < keyNat b ↔ idLt a b := by
+  unfold keyNat idLt; omega
+
+theorem keyNat_le {a b : Id} (ha : a.2 < 2 ^ 64) (hb : b.2 < 2 ^ 64) : keyNat a ≤ keyNat b ↔ ¬ idLt b a := by
+  unfold keyNat idLt; omega
+
+theorem map_dropWhile (T : Id) (hT : T.2 < 2 ^ 64) : ∀ (l : List Id), (∀ x ∈ l, x.2 < 2 ^ 64) →
+    (l.map keyNat).dropWhile (· < keyNat T) = (l.dropWhile (fun x => decide (idLt x T))).map keyNat ∧
+    (l.map keyNat).takeWhile (· < keyNat T) = (l.takeWhile (fun x => decide (idLt x T))).map keyNat := by
+  intro l
+  induction l with
+  | nil => intro _; exact ⟨rfl, rfl⟩
+  | cons x l ih =>
+    intro h
+    have hx := h x (by simp)
+    obtain ⟨h1, h2⟩ := ih (fun y hy => h y (by simp [hy]))
+    have hiff := keyNat_lt hx hT
+    by_cases hlt : idLt x T
+    · have hk : keyNat x < keyNat T := hiff.2 hlt
+      simp only [List.map_cons, List.dropWhile_cons, List.takeWhile_cons, hk, hlt, decide_true, if_true]
+      exact ⟨h1, by rw [h2]⟩
+    · have hk : ¬ keyNat x < keyNat T := fun hh => hlt (hiff.1 hh)
+      simp only [List.map_cons, List.dropWhile_cons, List.takeWhile_cons, hk, hlt, decide_false]
+      exact ⟨rfl, rfl⟩
+
+/-- everything the refinement needs about `Fill`'s output -/
+theorem ctx_fill (token : Bytes) (ids : List Id) (tbl : Table) (hv : ValidIds ids) (hs : SortedIds ids)
+    (ht : TableOK tbl) (htn : ∀ id ∈ ids, TnOK tbl id.1) : Ctx (fill token ids) tbl ids where
+  lay := fill_lay token ids hv hs
+  sortedNs := fill_nss_sorted token ids
+  aligned := fill_nss_aligned token ids
+  inRange := fill_nss_inRange token ids
+  sorted := hs
+  valid := hv
+  tblOK := ht
+  tnOK := htn
+
+/-- the value an iterator state reports, as a key of the spec cursor -/
+def curKey (pl : PostingList) (it : It) : Option Nat :=
+  match cur pl it with
+  | .ok id => some (keyNat id)
+  | .error _ => none
+
+theorem curKey_canon {pl : PostingList} {ids : List Id} {it : It} {done rest : List Id}
+    (hc : Canon pl ids it done rest) : ∀ x, (cursorOf done rest).cur = some x → curKey pl it = some x := by
+  intro x hx
+  unfold cursorOf Cursor.cur at hx
+  simp only [List.getLast?_map] at hx
+  cases hl : done.getLast? with
+  | none => rw [hl] at hx; simp at hx
+  | some c =>
+    rw [hl] at hx
+    simp only [Option.map_some, Option.some.injEq] at hx
+    unfold curKey
+    rw [canon_cur hc hl]
+    simp only [hx]
+
+/-- **next_spec**: `Next` from a canonical state answers like the spec cursor's `next` and lands in the canonical
+state of the new cursor. -/
+theorem next_spec {pl : PostingList} {tbl : Table} {ids : List Id} (ctx : Ctx pl tbl ids)
+    {it : It} {done rest : List Id} (hc : Canon pl ids it done rest) :
+    ∃ it', next pl it = .ok ((cursorOf done rest).next.1, it') ∧
+      ((cursorOf done rest).next.1 = true →
+        ∃ done' rest', Canon pl ids it' done' rest' ∧ (cursorOf done rest).next.2 = cursorOf done' rest') := by
+  cases rest with
+  | nil =>
+    refine ⟨it, ?_, fun h => ?_⟩
+    · rw [canon_end hc]; rfl
+    · simp [cursorOf, Cursor.next] at h
+  | cons id rest =>
+    obtain ⟨it', hn, _, hc'⟩ := canon_next ctx hc
+    refine ⟨it', ?_, fun _ => ⟨done ++ [id], rest, hc', ?_⟩⟩
+    · rw [hn]; rfl
+    · simp [cursorOf, Cursor.next]
+
+/-- **advance_spec**: `Advance(T)` from a canonical state answers like the spec cursor's `advance (keyNat T)` —
+stay when the current id is `≥ T`, else the first remaining id `≥ T`, else false — for **every** target `T`
+whose namespace is in the table (present in the list or not), and lands in the canonical state of the new cursor. -/
+theorem advance_spec {pl : PostingList} {tbl : Table} {ids : List Id} (ctx : Ctx pl tbl ids)
+    {it : It} {done rest : List Id} (hc : Canon pl ids it done rest)
+    (T : Id) (hT : TnOK tbl T.1) (hTv : T.2 < 2 ^ 64) :
+    ∃ it', advance pl tbl (keyOf tbl T) it = .ok (((cursorOf done rest).advance (keyNat T)).1, it') ∧
+      (((cursorOf done rest).advance (keyNat T)).1 = true →
+        ∃ done' rest', Canon pl ids it' done' rest' ∧
+          ((cursorOf done rest).advance (keyNat T)).2 = cursorOf done' rest') := by
+  obtain ⟨hstay, hmove⟩ := B6.Model.Posting.advance_spec ctx hc hT
+  have hvalid : ∀ x ∈ done ++ rest, x.2 < 2 ^ 64 := fun x hx => (ctx.valid x (by rw [hc.split]; exact hx)).1
+  have hrestv : ∀ x ∈ rest, x.2 < 2 ^ 64 := fun x hx => hvalid x (List.mem_append_right _ hx)
+  obtain ⟨hdw, htw⟩ := map_dropWhile T hTv rest hrestv
+  -- the `seek` part, shared by the started and the not-started case
+  have hseek : (∀ c, done.getLast? = some c → idLt c T) →
+      ∃ it', advance pl tbl (keyOf tbl T) it = .ok (((cursorOf done rest).seek (keyNat T)).1, it') ∧
+      (((cursorOf done rest).seek (keyNat T)).1 = true →
+        ∃ done' rest', Canon pl ids it' done' rest' ∧
+          ((cursorOf done rest).seek (keyNat T)).2 = cursorOf done' rest') := by
+    intro hlt
+    obtain ⟨it1, hsp⟩ := hmove hlt
+    unfold Cursor.seek cursorOf
+    simp only
+    rw [hdw, htw]
+    cases hd : rest.dropWhile (fun x => decide (idLt x T)) with
+    | nil =>
+      refine ⟨it1, ?_, fun h => ?_⟩
+      · rw [hsp.2 hd]; rfl
+      · simp at h
+    | cons x hi =>
+      obtain ⟨it', h1, _, h3⟩ := hsp.1 x hi hd
+      refine ⟨it', ?_, fun _ => ⟨_, hi, h3, ?_⟩⟩
+      · rw [h1]; rfl
+      · simp [List.map_append]
+  unfold Cursor.advance
+  have hcur : (cursorOf done rest).cur = done.getLast?.map keyNat := by
+    simp [cursorOf, Cursor.cur, List.getLast?_map]
+  rw [hcur]
+  cases hl : done.getLast? with
+  | none =>
+    simp only [Option.map_none]
+    exact hseek (fun c hc' => by rw [hl] at hc'; simp at hc')
+  | some c =>
+    simp only [Option.map_some]
+    have hcv : c.2 < 2 ^ 64 := hvalid c (List.mem_append_left _ (List.mem_of_getLast? hl))
+    by_cases hle : keyNat T ≤ keyNat c
+    · rw [if_pos hle]
+      have hn : ¬ idLt c T := (keyNat_le hTv hcv).1 hle
+      exact ⟨it, hstay c hl hn, fun _ => ⟨done, rest, hc, rfl⟩⟩
+    · rw [if_neg hle]
+      have hlt : idLt c T := by
+        apply Classical.byContradiction
+        intro hn; exact hle ((keyNat_le hTv hcv).2 hn)
+      exact hseek (fun c' hc' => by rw [hl] at hc'; simp only [Option.some.injEq] at hc'; subst hc'; exact hlt)
+
+/-! ### every call sequence -/
+
+/-- the model's transcript of a call sequence (`advance k` takes the key of the target id); it ends at the first
+`false`; `none` = the model reported a panic / error -/
+def runModel (pl : PostingList) (tbl : Table) : It → List Call → Option (List (Bool × Option Nat))
+  | _, [] => some []
+  | it, call :: calls =>
+    match (match call with
+      | .next => next pl it
+      | .advance k => advance pl tbl (keyOf tbl (k / 2 ^ 64, k % 2 ^ 64)) it) with
+    | .ok (true, it') => (runModel pl tbl it' calls).map ((true, curKey pl it') :: ·)
+    | .ok (false, _) => some [(false, none)]
+    | .error _ => none
+
+theorem run_canon {pl : PostingList} {tbl : Table} {ids : List Id} (ctx : Ctx pl tbl ids) :
+    ∀ (calls : List Call) (it : It) (done rest : List Id), Canon pl ids it done rest →
+      (∀ k, Call.advance k ∈ calls → TnOK tbl (k / 2 ^ 64)) →
+      runModel pl tbl it calls = some (runSpec (cursorOf done rest) calls) := by
+  intro calls
+  induction calls with
+  | nil => intros; rfl
+  | cons call calls ih =>
+    intro it done rest hc hk
+    have hk' : ∀ k, Call.advance k ∈ calls → TnOK tbl (k / 2 ^ 64) := fun k h => hk k (by simp [h])
+    cases call with
+    | next =>
+      obtain ⟨it', h1, h2⟩ := next_spec ctx hc
+      simp only [runModel, runSpec, h1]
+      cases hb : (cursorOf done rest).next.1 with
+      | false => simp
+      | true =>
+        obtain ⟨done', rest', hc', heq⟩ := h2 hb
+        have hw : (cursorOf done rest).WF → True := fun _ => trivial
+        simp only [if_true]
+        rw [ih it' done' rest' hc' hk', heq]
+        -- the reported value
+        have hv : curKey pl it' = (cursorOf done' rest').cur := by
+          cases hcur : (cursorOf done' rest').cur with
+          | some x => exact curKey_canon hc' x hcur
+          | none =>
+            exfalso
+            have : (cursorOf done rest).next.2.cur = none := by rw [heq]; exact hcur
+            cases rest with
+            | nil => simp [cursorOf, Cursor.next] at hb
+            | cons id r => simp [cursorOf, Cursor.next, Cursor.cur] at this
+        simp [hv]
+    | advance k =>
+      have hT : TnOK tbl (k / 2 ^ 64) := hk k (by simp)
+      have hTv : k % 2 ^ 64 < 2 ^ 64 := Nat.mod_lt _ (by omega)
+      have hkey : keyNat (k / 2 ^ 64, k % 2 ^ 64) = k := by
+        unfold keyNat; simp only; omega
+      obtain ⟨it', h1, h2⟩ := advance_spec ctx hc (k / 2 ^ 64, k % 2 ^ 64) hT hTv
+      rw [hkey] at h1 h2
+      simp only [runModel, runSpec, h1]
+      cases hb : ((cursorOf done rest).advance k).1 with
+      | false => simp
+      | true =>
+        obtain ⟨done', rest', hc', heq⟩ := h2 hb
+        simp only [if_true]
+        rw [ih it' done' rest' hc' hk', heq]
+        have hv : curKey pl it' = (cursorOf done' rest').cur := by
+          cases hcur : (cursorOf done' rest').cur with
+          | some x => exact curKey_canon hc' x hcur
+          | none =>
+            exfalso
+            -- a successful `advance` always has a current element
+            have hwf : (cursorOf done rest).WF := by
+              unfold Cursor.WF Cursor.xs cursorOf
+              simp only [← List.map_append, ← hc.split]
+              unfold B6.Spec.Cursor.StrictSorted
+              rw [List.pairwise_map]
+              exact ctx.sorted.imp_of_mem (fun {a b} ha hb hab =>
+                (keyNat_lt (ctx.valid a ha).1 (ctx.valid b hb).1).2 hab)
+            obtain ⟨_, _, _, x, hx, _⟩ := (Cursor.advance_spec hwf k).1 hb
+            rw [heq, hcur] at hx
+            simp at hx
+        simp [hv]
+
+/-- **posting_transcript**: for the posting list built by `Fill` from any valid strictly increasing id list, and
+**every** finite sequence of `Next` / `Advance(T)` calls (every `T` whose namespace is in the table), the
+iterator's answers — the booleans and the ids reported — are exactly those of the spec cursor over the list
+(up to the first `false`). -/
+theorem posting_transcript (token : Bytes) (ids : List Id) (tbl : Table) (hv : ValidIds ids) (hs : SortedIds ids)
+    (ht : TableOK tbl) (htn : ∀ id ∈ ids, TnOK tbl id.1) (calls : List Call)
+    (hk : ∀ k, Call.advance k ∈ calls → TnOK tbl (k / 2 ^ 64)) :
+    runModel (fill token ids) tbl It.start calls
+      = some (runSpec (B6.Spec.Cursor.start (ids.map keyNat)) calls) := by
+  have ctx := ctx_fill token ids tbl hv hs ht htn
+  exact run_canon ctx calls It.start [] ids (canon_start ctx) hk
+
+
+/-! ## the namespace table -/
+
+/-- **table_order_preserving**: `FillFromNamespaces` on distinct non-empty names (fewer than 2^13) builds a table in
+which `Encode`/`Decode` are inverse on the given names and `Encode` preserves the string order — which is what
+lets the iterator compare `TypeAndNamespace` integers instead of namespace strings. -/
+theorem table_order_preserving (nss : List String) (hnd : nss.Nodup) (hne : "" ∉ nss) (hlen : nss.length < 8192)
+    (a b : String) (ha : a ∈ nss) (hb : b ∈ nss) :
+    ∃ i j, (fillFromNamespaces nss).encode a = .ok i ∧ (fillFromNamespaces nss).encode b = .ok j ∧
+      (fillFromNamespaces nss).decode i = .ok a ∧ (fillFromNamespaces nss).decode j = .ok b ∧ (a < b ↔ i < j) := by
+  obtain ⟨hok, hmem⟩ := fillFromNamespaces_ok nss hnd hne hlen
+  obtain ⟨i, hi, hia⟩ := List.mem_iff_getElem.1 ((hmem a).2 (Or.inr ha))
+  obtain ⟨j, hj, hjb⟩ := List.mem_iff_getElem.1 ((hmem b).2 (Or.inr hb))
+  refine ⟨i, j, ?_, ?_, ?_, ?_, ?_⟩
+  · rw [← hia]; exact encode_name hok hi
+  · rw [← hjb]; exact encode_name hok hj
+  · unfold Table.decode; rw [List.getElem?_eq_getElem hi, hia]
+  · unfold Table.decode; rw [List.getElem?_eq_getElem hj, hjb]
+  · rw [← hia, ← hjb]; exact names_lt_iff hok hi hj
+
+example : (fillFromNamespaces ["c", "a", "b"]).names = ["", "a", "b", "c"] := by decide
+
+/-! ## the defect that was repaired (fixes/C08-advance-absent-namespace.patch) -/
+
+def wTbl : Table := ⟨["", "a", "b", "c"]⟩
+/-- `{point/a/1, point/c/5, point/c/9}` -/
+def wIds : List Id := [(1, 1), (3, 5), (3, 9)]
+def wPl : PostingList := fill [] wIds
+
+def isOk (r : Except Err (Bool × It)) (b : Bool) (it : It) : Bool :=
+  match r with
+  | .ok (b', it') => b' == b && decide (it' = it)
+  | .error _ => false
+
+/-- the code before the repair: `Advance(point/b/3)` (namespace `b` is in the table, not in the list) lands
+on `c/5` but leaves `i.i = 64` on that value, so the following `Next` returns `c/5` again (`value = 5` twice). -/
+theorem advance_absent_namespace_counterexample :
+    isOk (advanceOld wPl wTbl ⟨0, "b", 3⟩ It.start) true ⟨1, 64, 5⟩ = true ∧
+    isOk (next wPl ⟨1, 64, 5⟩) true ⟨1, 65, 5⟩ = true := by decide
+
+/-- the repaired code consumes the value: `Advance` → `c/5`, `Next` → `c/9`. -/
+theorem advance_absent_namespace_fixed :
+    isOk (advance wPl wTbl ⟨0, "b", 3⟩ It.start) true ⟨1, 65, 5⟩ = true ∧
+    isOk (next wPl ⟨1, 65, 5⟩) true ⟨1, 66, 9⟩ = true := by decide
+
+example : TableOK wTbl ∧ (∀ id ∈ wIds, TnOK wTbl id.1) ∧ TnOK wTbl 2 := by
+  unfold TableOK TnOK wTbl wIds; decide
+
+end B6.Props.C08
